@@ -18,6 +18,9 @@ Property theorems only (plus the helper lemmas they need). The model (`CD.flags`
 * `C17_cex_subdiagram`    the sub-diagram derivation on the shared graph removes edges of its source (test)
 * `C17_accessors`         after any run every diagram's accessors report exactly its own graph
 * `C17_accessors_pure`    `C17_views_pure` for every accessor: no read ever differs from the previous read of that diagram
+* `C17_consistent`        every quirk setting, every annotation: one-to-many ⇔ container ∧ ¬ builtin endpoint, the relationship
+                          kinds and "builtin-valued" are mutually exclusive and exhaustive, type-valued ⇒ container
+* `C17_enum_one_to_one`   `is_enum` True ⇒ one-to-one to a non-builtin, not a container
 -/
 namespace KrroodVerif.CD
 
@@ -34,6 +37,7 @@ theorem stepN_none_eq_spec (a : Ann) :
   | builtin b => intro n _; rw [resolve, stepN_fixed _ _ (by rfl)]; rfl
   | cls i => intro n _; rw [resolve, stepN_fixed _ _ (by rfl)]; rfl
   | enum i => intro n _; rw [resolve, stepN_fixed _ _ (by rfl)]; rfl
+  | ext k i => intro n _; rw [resolve, stepN_fixed _ _ (by rfl)]; rfl
   | fwd x ih => intro n h; exact ih n h
   | union x y w _ _ =>
     intro n _
@@ -70,6 +74,7 @@ inductive IsLeaf : Ann → Prop
   | builtin (b) : IsLeaf (.builtin b)
   | cls (i) : IsLeaf (.cls i)
   | enum (i) : IsLeaf (.enum i)
+  | ext (k i) : IsLeaf (.ext k i)
 
 /-- an annotation without wrappers and unions resolves to a class-like leaf, which is its endpoint -/
 theorem leaf_of_depth0 (x : Ann) (hd : wrapDepth x = 0) (hu : hasUnion x = false) :
@@ -78,6 +83,7 @@ theorem leaf_of_depth0 (x : Ann) (hd : wrapDepth x = 0) (hu : hasUnion x = false
   | builtin b => exact ⟨.builtin b, rfl⟩
   | cls i => exact ⟨.cls i, rfl⟩
   | enum i => exact ⟨.enum i, rfl⟩
+  | ext k i => exact ⟨.ext k i, rfl⟩
   | fwd x ih => exact ih hd hu
   | union x y w _ _ => simp [hasUnion] at hu
   | optional st x _ => simp [wrapDepth] at hd
@@ -91,6 +97,7 @@ theorem depth0_endpoint (q : Quirks) (x : Ann) (hd : wrapDepth x = 0) :
   | builtin b => exact ⟨rfl, rfl⟩
   | cls i => exact ⟨rfl, rfl⟩
   | enum i => exact ⟨rfl, rfl⟩
+  | ext k i => exact ⟨rfl, rfl⟩
   | fwd x ih => exact ih hd
   | union x y w _ _ => cases w <;> exact ⟨rfl, rfl⟩
   | optional st x _ => simp [wrapDepth] at hd
@@ -105,6 +112,7 @@ theorem optional_none (a : Ann) : (flags .none a).optional = (specFlags a).optio
   | builtin b => rfl
   | cls i => rfl
   | enum i => rfl
+  | ext k i => rfl
   | fwd x ih => exact ih
   | union x y w _ _ => cases w <;> rfl
   | optional st x _ => cases st <;> rfl
@@ -119,6 +127,7 @@ theorem flags_plain (q : Quirks) (a : Ann) (hp : plain a = true)
   | builtin b => cases q with | mk s u o z => cases u <;> rfl
   | cls i => cases q with | mk s u o z => cases u <;> rfl
   | enum i => cases q with | mk s u o z => cases u <;> rfl
+  | ext k i => cases q with | mk s u o z => cases u <;> cases k <;> rfl
   | fwd x ih => exact ih hp ok
   | union x y w _ _ => simp [plain, hasUnion] at hp
   | optional st x _ =>
@@ -128,7 +137,7 @@ theorem flags_plain (q : Quirks) (a : Ann) (hp : plain a = true)
     rw [← he]
     generalize resolve x = L at hl
     cases q with | mk s u o z =>
-    cases hl <;> cases st <;> cases u <;> cases o <;> cases z <;> first | rfl | (simp [oddOptional] at ok)
+    cases hl <;> (try cases ‹ClassKind›) <;> cases st <;> cases u <;> cases o <;> cases z <;> first | rfl | (simp [oddOptional] at ok)
   | container k x _ =>
     simp [plain, wrapDepth, hasUnion] at hp
     obtain ⟨hl, he⟩ := leaf_of_depth0 x hp.1 hp.2
@@ -136,7 +145,7 @@ theorem flags_plain (q : Quirks) (a : Ann) (hp : plain a = true)
     rw [← he]
     generalize resolve x = L at hl
     cases q with | mk s u o z =>
-    cases hl <;> cases k <;> cases u <;> cases o <;> cases z <;> rfl
+    cases hl <;> (try cases ‹ClassKind›) <;> cases k <;> cases u <;> cases o <;> cases z <;> rfl
   | typeOf x _ =>
     simp [plain, wrapDepth, hasUnion] at hp
     obtain ⟨hl, he⟩ := leaf_of_depth0 x hp.1 hp.2
@@ -144,7 +153,7 @@ theorem flags_plain (q : Quirks) (a : Ann) (hp : plain a = true)
     rw [← he]
     generalize resolve x = L at hl
     cases q with | mk s u o z =>
-    cases hl <;> cases u <;> cases o <;> cases z <;> rfl
+    cases hl <;> (try cases ‹ClassKind›) <;> cases u <;> cases o <;> cases z <;> rfl
 
 /-- **C17_classify.** For the repaired predicates and *every* annotation term, of any nesting, quoted anywhere:
 the endpoint is the declared type seen through all Optional / container / `Type` wrappers; `is_optional` says
@@ -167,6 +176,7 @@ theorem endpoint_single (q : Quirks) (hs : q.singleUnwrap = true) (a : Ann) (hn 
   | builtin b => rfl
   | cls i => rfl
   | enum i => rfl
+  | ext k i => rfl
   | fwd x ih => exact ih hn ok
   | union x y w _ _ => cases w <;> rfl
   | optional st x _ =>
@@ -196,6 +206,7 @@ theorem optional_q (q : Quirks) (a : Ann) (ok : q.pipeNotOptional = true → odd
   | builtin b => rfl
   | cls i => rfl
   | enum i => rfl
+  | ext k i => rfl
   | fwd x ih => exact ih ok
   | union x y w _ _ => cases w <;> rfl
   | optional st x _ => cases st <;> cases p <;> first | rfl | (simp [oddOptional] at ok)
@@ -904,4 +915,95 @@ example :
     readTrace readout .today (Store.init (build .today w [0, 1, 2])) [] [.read 0, .sub 0 false, .read 0]
       = [false, false, true] := by decide
 
+/-! ## accessor consistency -/
+
+/-- a container is never an optional (their origins are different objects), under every quirk setting -/
+theorem container_not_optional (q : Quirks) (t : Ann) (h : isContainer t = true) : isOptional q t = false := by
+  cases t with
+  | container k x => cases k <;> rfl
+  | typeOf x => rfl
+  | optional st x => cases st <;> simp [isContainer, getOrigin, containerOrigins] at h
+  | union x y w => simp [isContainer, getOrigin, containerOrigins] at h
+  | builtin b => rfl
+  | cls i => rfl
+  | enum i => rfl
+  | ext k i => rfl
+  | fwd x => rfl
+
+/-- `is_enum` answers True only for a field whose endpoint is an enum class (plain or with a scalar mix-in) -/
+theorem enum_endpoint (q : Quirks) (t : Ann) (h : isEnum q t = .t) : (typeEndpoint q t).leaf.isEnum = true := by
+  cases q with | mk sc su p z =>
+  cases t with
+  | builtin b => exact absurd (show Tri.f = Tri.t from h) (by decide)
+  | cls i => exact absurd (show Tri.f = Tri.t from h) (by decide)
+  | fwd x => exact absurd (show Tri.err = Tri.t from h) (by decide)
+  | union x y w => cases w <;> exact absurd (show Tri.err = Tri.t from h) (by decide)
+  | enum i => cases su <;> rfl
+  | ext k i => cases k <;> cases su <;>
+      first | rfl | exact absurd (show Tri.f = Tri.t from h) (by decide)
+  | typeOf x => exact absurd (show Tri.f = Tri.t from h) (by decide)
+  | container k x => cases k <;> exact absurd (show Tri.f = Tri.t from h) (by decide)
+  | optional st x =>
+    cases st <;> cases p <;> cases z <;> cases x <;> (try cases ‹ClassKind›) <;> cases su <;>
+      first
+        | rfl
+        | exact absurd (show Tri.f = Tri.t from h) (by decide)
+        | exact absurd (show Tri.err = Tri.t from h) (by decide)
+
+/-- non-vacuity: `Optional[E0]` -/
+example : isEnum .current (.optional .typing (.enum 0)) = .t := rfl
+
+/-- **C17_enum_one_to_one.** Under every quirk setting and for every annotation: a field for which `is_enum` answers
+True is a one-to-one relationship to a non-builtin (its endpoint is the enum class), never a container. -/
+theorem C17_enum_one_to_one (q : Quirks) (t : Ann) (h : isEnum q t = .t) :
+    isOneToOne q t = true ∧ isBuiltinType q t = false ∧ isContainer t = false ∧ isOneToMany q t = false := by
+  have hi := enum_endpoint q t h
+  have hb : isBuiltinType q t = false := by
+    unfold isBuiltinType
+    generalize (typeEndpoint q t).leaf = l at hi
+    cases l <;> first | rfl | cases hi
+  have hc : isContainer t = false := by
+    cases hc : isContainer t
+    · rfl
+    · simp [isEnum, hc] at h
+  simp [isOneToOne, isOneToMany, hb, hc]
+
+/-- **C17_consistent** (accessor consistency). Under EVERY quirk setting (the code as it was found, as it is now, and
+repaired) and for EVERY annotation term: `is_one_to_many_relationship ⇔ is_container ∧ ¬ builtin endpoint` (the
+`not is_optional` conjunct of the source is redundant: a container is never an optional);
+`is_one_to_one_relationship ⇔ ¬ is_container ∧ ¬ builtin endpoint`; the three kinds "builtin-valued", "one-to-one",
+"one-to-many" are mutually exclusive and exhaustive; `is_type_type ⇒ is_container`; `is_iterable ⇒ one-to-many and
+not type-valued`. -/
+theorem C17_consistent (q : Quirks) (t : Ann) :
+    isOneToMany q t = (isContainer t && !isBuiltinType q t) ∧
+    isOneToOne q t = (!isContainer t && !isBuiltinType q t) ∧
+    (isOneToOne q t && isOneToMany q t) = false ∧
+    (isBuiltinType q t && isOneToOne q t) = false ∧
+    (isBuiltinType q t && isOneToMany q t) = false ∧
+    (isBuiltinType q t || isOneToOne q t || isOneToMany q t) = true ∧
+    (isContainer t && isOptional q t) = false ∧
+    (isTypeType t = true → isContainer t = true) ∧
+    (isIterable q t = true → isOneToMany q t = true ∧ isTypeType t = false) := by
+  have hco := container_not_optional q t
+  refine ⟨?_, rfl, ?_, ?_, ?_, ?_, ?_, ?_, ?_⟩
+  · unfold isOneToMany
+    cases hc : isContainer t <;> simp [hc] at hco ⊢
+    simp [hco]
+  · unfold isOneToOne isOneToMany; cases isContainer t <;> simp
+  · unfold isOneToOne; cases isBuiltinType q t <;> simp
+  · unfold isOneToMany; cases isBuiltinType q t <;> simp
+  · unfold isOneToOne isOneToMany
+    cases hc : isContainer t <;> cases isBuiltinType q t <;> simp [hc] at hco ⊢
+    simp [hco]
+  · cases hc : isContainer t <;> simp [hc] at hco ⊢
+    exact hco
+  · intro h
+    cases t with
+    | typeOf x => rfl
+    | container k x => cases k <;> rfl
+    | optional st x => cases st <;> simp [isTypeType, getOrigin] at h
+    | _ => simp [isTypeType, getOrigin] at h
+  · intro h
+    simp [isIterable, isTypeType] at h ⊢
+    exact h
 end KrroodVerif.CD
